@@ -251,7 +251,9 @@ class GMRES:
                 # The residual is just the last element of $\beta$ vector (see Wikipedia) since $y$ is found exactly.
                 error = np.abs(self.e1[k + 1]) / self.b_norm
                 self.total_error[-1].append(error)
-                if error < self.res and k >= self.N_min:
+                if error < self.res and (k >= self.N_min or self._breakdown):
+                    # on breakdown the Krylov space is exhausted and `x` is exact: further iterations
+                    # (asked for by `N_min`) would orthogonalize rounding noise and divide by zero.
                     converged = True
                     break
             self.total_iters.append(k + 1)
@@ -268,10 +270,13 @@ class GMRES:
     def arnoldi(self, k):
         # Iterative build orthogonal Krylov subspace and $H$ matrix.
         q = self.A.matvec(self.qs[-1])
+        norm_Aq = npc.norm(q)
         for i in range(k + 1):
             self.H[i, k] = npc.inner(q, self.qs[i], axes='range', do_conj=True)
             q.iadd_prefactor_other(-self.H[i, k], self.qs[i])
         self.H[k + 1, k] = npc.norm(q)
+        # nothing but rounding errors left after orthogonalization: Krylov space is exhausted
+        self._breakdown = not (np.abs(self.H[k + 1, k]) > 1.0e-14 * norm_Aq)
         if self.H[k + 1, k] > 0:  # avoid warning if norm(q)==0, error=0 in that case
             q.iscale_prefactor(1.0 / self.H[k + 1, k])
         self.qs.append(q)
